@@ -617,10 +617,14 @@ def gen_sites(src, out):
     fc = "tapkee/neighbors/connected.hpp"
     body = src.function_body(fc, r"bool is_connected\(", "is_connected")
     m = re.search(r"IndexType (\w+) = neighbors\[0\]\.size\(\);", body)
-    m2 = m and re.search(r"for \(IndexType (\w+) = 0; \1 < %s; \+\+\1\) \{ int \w+ = ([\w\[\]]+)\[\1\];" % m.group(1), body)
+    m2 = m and re.search(r"for \(IndexType (\w+) = 0; \1 (<=|<) ([^;]+); \+\+\1\) \{ int \w+ = ([\w\[\]]+)\[\1\];", body)
     if not m2:
         raise TranslateError("connected.hpp: `k = neighbors[0].size()` / `current_neighbors[j], j < k` not found")
-    out.defn("consumer_loop_bound", ["len0"], "len0", "connected.hpp (and every routine): `k = neighbors[0].size()`, lists indexed by j < k")
+    bound = E(m2.group(3), {m.group(1): "len0"}, what="consumer loop bound")
+    if m2.group(2) == "<=":
+        bound = "(%s + 1)" % bound
+    out.defn("consumer_loop_bound", ["len0"], bound,
+             "connected.hpp (and every routine): `%s = neighbors[0].size()`, lists indexed by `%s %s %s` (exclusive bound)" % (m.group(1), m2.group(1), m2.group(2), m2.group(3)))
 
     # ---- HLLE -------------------------------------------------------------------------------------------------
     f = "tapkee/routines/locally_linear.hpp"
@@ -859,6 +863,7 @@ def gen_sites(src, out):
     out.comment("§2.10 methods/tsne.hpp, external/barnes_hut_sne/tsne.hpp, quadtree.hpp")
     body = src.function_body("tapkee/methods/tsne.hpp", r"__TAPKEE_IMPLEMENTATION\(tDistributedStochasticNeighborEmbedding\).*?TapkeeOutput embed\(\)", "tSNE::embed")
     m = re.search(r"DenseMatrix embedding\(static_cast<IndexType>\(parameters\[target_dimension\]\), n_vectors\);", body)
+    # (rows x cols written literally; any other allocation shape must be taught to the translator)
     m2 = re.search(r"tsne\.run\(data, data\.cols\(\), data\.rows\(\), embedding\.data\(\), parameters\[target_dimension\],", body)
     if not (m and m2):
         raise TranslateError("tsne.hpp: embedding(d, n_vectors) / tsne.run(..., embedding.data(), d, ...) not found")
@@ -881,11 +886,16 @@ def gen_sites(src, out):
     out.defn("qt_posf_idx", ["n", "dd"], E(m.group(5), {m.group(1): "(n * qt_no_dims)", m.group(4): "dd"}, what="pos_f"),
              "computeEdgeForces: `pos_f[%s]`, %s = n * QT_NO_DIMS, d < QT_NO_DIMS" % (m.group(5), m.group(1)))
     body = src.function_body(ft, r"void computeGradient\(", "TSNE::computeGradient")
-    m = re.search(r"ScalarType\* pos_f = \(ScalarType\*\)calloc\(static_cast<size_t>\(N\) \* D, sizeof\(ScalarType\)\);", body)
+    m = re.search(r"ScalarType\* pos_f = \(ScalarType\*\)calloc\((.+?), sizeof\(ScalarType\)\);", body)
+    m1 = re.search(r"ScalarType\* neg_f = \(ScalarType\*\)calloc\((.+?), sizeof\(ScalarType\)\);", body)
     m2 = re.search(r"tree->computeNonEdgeForces\(\w+, theta, neg_f \+ ([^,]+), &sum_Q\);", body)
-    if not (m and m2):
-        raise TranslateError("tsne.hpp: pos_f calloc(N * D) / neg_f + n * D not found")
-    out.defn("tsne_force_size", ["N", "noDims"], "(N * noDims)", "`pos_f`, `neg_f` = calloc(N * D) with D = no_dims")
+    if not (m and m1 and m2):
+        raise TranslateError("tsne.hpp: pos_f / neg_f calloc(N * D) / neg_f + n * D not found")
+    fenv = {"N": "N", "D": "noDims"}
+    szp = E(m.group(1).replace("static_cast<size_t>", ""), fenv, what="pos_f size")
+    szn = E(m1.group(1).replace("static_cast<size_t>", ""), fenv, what="neg_f size")
+    out.defn("tsne_force_size", ["N", "noDims"], szp if szp == szn else "(min %s %s)" % (szp, szn),
+             "`pos_f` = calloc(%s), `neg_f` = calloc(%s), with D = no_dims" % (m.group(1), m1.group(1)))
     out.defn("tsne_negf_offset", ["n", "noDims"], E(m2.group(1), {"n": "n", "D": "noDims"}, what="neg_f offset"),
              "`neg_f + %s`, then QT_NO_DIMS entries are written" % m2.group(1))
     hdr = src.find(ft, r"ScalarType evaluateError\(ScalarType\* P, ScalarType\* Y, int N(?:, int (\w+))?\)", "exact evaluateError")
